@@ -200,12 +200,14 @@ def run(case) -> dict:
     if kind == "wf":
         towers, expect = wellformed_towers(rng)
         status = case[3]
-        reply = rpce.ndr64_ept_map_response(towers, status)
+        # the [in, out] lookup handle of the reply: NULL, or a live handle (the mapper has more entries); what the reply means is the same
+        handle = b"\x00" * 20 if (seed // 3) % 3 else struct.pack("<I", (0, 1, 0xFFFFFFFF)[seed % 3]) + bytes((seed * 7 + j) & 0xFF or 1 for j in range(16))
+        reply = rpce.ndr64_ept_map_response(towers, status, handle=handle)
         dc = refdc.RefDC(world, [], host=DC, epm={"raw_reply": reply})
         # alloc_hint of the Response PDU is advisory: smaller than the stub, zero, or exact - the answer is the same
         hint = (None, None, 4, 8, 1, "zero", 20)[seed % 7]
         dc.epm_server.knobs["alloc_hint_unsealed"] = hint
-        label = f"towers={len(towers)} alloc_hint={'exact' if hint is None else ('0' if hint == 'zero' else 'len-%d' % hint)}"
+        label = f"towers={len(towers)} alloc_hint={'exact' if hint is None else ('0' if hint == 'zero' else 'len-%d' % hint)} lookup-handle={'null' if not any(handle) else 'live'}"
     elif kind == "hostile":
         reply, label = hostile_reply(rng)
         dc = refdc.RefDC(world, [], host=DC, epm={"raw_reply": reply})
@@ -246,6 +248,10 @@ def run(case) -> dict:
         probes["alloc_hint_short"] = 1
     if kind == "wf":
         probes["delivery_" + ("whole", "segments", "pause", "reset_after_reply")[probes_delivery]] = 1
+        if "lookup-handle=live" in label:
+            probes["live_lookup_handle"] = 1
+            if expect is None and status == 0:
+                probes["live_lookup_handle_without_tcp_floor"] = 1
 
     def V(clause, cond, detail):
         et, frame = drive.exc_sig(out)
@@ -254,6 +260,10 @@ def run(case) -> dict:
 
     if out.kind in ("budget", "spin", "blocks"):
         viol = V("bounded-work", out.kind, "processing the mapper's reply did not end within the line budget")
+    elif world.stats.get("peer_gave_up"):
+        # the client went on sending requests on the mapper connection until the simulated peer cut it off after 64 PDUs: how much work
+        # one reply causes was decided by the peer, not by the reply's size
+        viol = V("bounded-work", "endless-conversation", f"the client sent {len(dc.epm_log)} ept_map requests on one connection and only stopped when the peer reset it")
     elif peak > MEM_C + MEM_D * len(reply):
         viol = V("bounded-work", "memory", f"address space grew by {peak} bytes for a {len(reply)}-byte reply")
     elif kind == "wf":
@@ -279,7 +289,7 @@ class C18(common.Check):
     rule = ("case = ept_map reply served to the real first hop of _sync_get_key/_async_get_key. Well-formed (reference-encoded): 0..6 towers, 2..7 "
             "floors of known and unknown protocols with payloads 0..11 bytes (every tower-length residue mod 8), TCP floor first / last / "
             "anywhere / absent, status 0 and error codes: the port dialled next (observed at the network seam) must be the TCP port of the first "
-            "tower with a TCP floor; error status or no TCP floor must raise without dialling; the Response PDU's advisory alloc_hint is exact, zero or smaller than the stub; the reply arrives whole, in PRNG segments, after a pause, or complete and followed at once by a connection reset; the hint is exact, "
+            "tower with a TCP floor; error status or no TCP floor must raise without dialling; the reply's lookup handle is NULL or live (the mapper then answers every further request the same way); the Response PDU's advisory alloc_hint is exact, zero or smaller than the stub; the reply arrives whole, in PRNG segments, after a pause, or complete and followed at once by a connection reset; the hint is exact, "
             "zero or smaller than the stub; sequences of lookups in one process whose answers change; 2..3 caller threads looking the endpoint "
             "up at the same time (sync API, deterministic thread scheduler, segmented replies) while the mapper announces a different port "
             "to each: every announced port must be dialled exactly once. Hostile: many towers with tiny declared lengths whose floor counts "
@@ -291,7 +301,7 @@ class C18(common.Check):
                   "endpoint mapper": "Byzantine scripted peer / reference encoder (ref.rpce)", "network seam": "simulated: the dialled port is an observation",
                   "budgets": "sys.settrace line counter (dpapi_ng frames) and address-space high-water mark"}
     assumptions = ["budgets are affine in the reply length with constants > 20x the maximum observed on well-formed replies"]
-    required_fired = ("port_expected", "must_raise", "kind_hostile", "kind_trunc", "kind_seq", "seq_error_after_success", "hostile_actual", "hostile_floor-count", "hostile_tower-len", "hostile_overlap", "kind_threads", "thread_overlap", "alloc_hint_short", "delivery_segments", "delivery_pause", "delivery_reset_after_reply")
+    required_fired = ("port_expected", "must_raise", "kind_hostile", "kind_trunc", "kind_seq", "seq_error_after_success", "hostile_actual", "hostile_floor-count", "hostile_tower-len", "hostile_overlap", "kind_threads", "thread_overlap", "alloc_hint_short", "delivery_segments", "delivery_pause", "delivery_reset_after_reply", "live_lookup_handle", "live_lookup_handle_without_tcp_floor")
 
     def cases(self, tier, seed):
         rng = prng.stream(seed, "C18")
